@@ -650,9 +650,6 @@ func (vfs *OrefaFS) OpenFile(name string, flag int, perm fs.FileMode) (avfs.File
 				child.mu.Unlock()
 			}
 
-			if om&avfs.OpenAppend != 0 {
-				at = child.Size()
-			}
 		}
 	}
 
